@@ -837,6 +837,10 @@ class MemoryPathIO(AbstractPathIO):
             snode = self.get_node(source)
             if None in (snode, dparent):
                 raise FileNotFoundError
+            if dparent.type != "dir":
+                raise NotADirectoryError
+            if self._absolute(source) in self._absolute(destination).parents:
+                raise OSError("Invalid argument")
             for i, node in enumerate(sparent.content):
                 if node.name == source.name:
                     sparent.content.pop(i)
